@@ -69,3 +69,36 @@ func zzC04_malformed() {
 	zzAssert(e.Software == fresh.Software && e.ImageDescription == fresh.ImageDescription, "a (possibly truncated) value is the same on pristine pools and after arbitrary earlier calls")
 	zzReached("end")
 }
+
+// the unbuffered route (Parse on a plain io.ReadSeeker; values are read into the pooled scratch buffer): decode a
+// truncated file on pristine pools, then an arbitrary complete "earlier" file, then the truncated file again. The pool
+// model hands the recycled buffer back (as sync.Pool does), so the earlier file's bytes are solver variables in it.
+func zzC04_unbuffered_N() int { return 2 }
+func zzC04_unbuffered() {
+	id := []uint16{0x0131, 0x010e}[zzPart()]
+	mk := func(cnt uint32, payload []byte) []byte {
+		t := zzNewTiff(26+len(payload), false, 8)
+		t.dir(8, 1, 0)
+		t.ent(8, 0, id, 2, cnt, 26)
+		t.bytes(26, payload)
+		return t.b
+	}
+	cnt := zzU32("cnt")
+	zzAssume(cnt >= 1 && cnt <= 24)
+	cnt = uint32(zzConc(uint64(cnt), 24))
+	cut := zzU32("cut")
+	zzAssume(cut <= 8)
+	cut = uint32(zzConc(uint64(cut), 9))
+	trunc := mk(cnt, zzBytes("v", 8)[:cut])
+	hist := zzBytes("h", 24)
+	for i := 0; i < 23; i++ {
+		zzAssume(hist[i] > ' ' && hist[i] < 0x7f)
+	}
+	hist[23] = 0
+	fresh, _ := Parse(zzReaderOf(trunc))
+	he, _ := Parse(zzReaderOf(mk(24, hist)))
+	zzAssume(len(he.Software) == 23 || len(he.ImageDescription) == 23)
+	got, _ := Parse(zzReaderOf(trunc))
+	zzAssert(got.Software == fresh.Software && got.ImageDescription == fresh.ImageDescription, "a truncated value reads the same on pristine pools and after an arbitrary earlier file")
+	zzReached("end")
+}
